@@ -137,6 +137,14 @@ func (g *gen) gate() []string {
 	return out
 }
 
+// gateOften: one feature half of the time (for interface families gated member by member)
+func (g *gen) gateOften() []string {
+	if g.r.Chance(1, 2) {
+		return nil
+	}
+	return []string{rng.Pick(g.r, featureUniverse)}
+}
+
 func subsetOf(a, b []string) bool {
 	for _, x := range a {
 		found := false
@@ -542,7 +550,7 @@ func genSchema(r *rng.R, opt genOpt) *gSchema {
 	for i, n := 0, pick(0, 2); i < n; i++ {
 		req := ifaceReq
 		if incoherent {
-			req = g.gate()
+			req = g.gateOften()
 		}
 		ifaces = append(ifaces, s.add(&gType{Kind: "interface", Name: g.typeName(), Desc: g.desc(), Req: req}))
 	}
@@ -558,6 +566,8 @@ func genSchema(r *rng.R, opt genOpt) *gSchema {
 		}
 		if len(o.Ifaces) > 0 && !incoherent {
 			o.Req = ifaceReq
+		} else if i > 0 && len(o.Ifaces) > 0 {
+			o.Req = g.gateOften()
 		} else if i > 0 {
 			o.Req = g.gate()
 		}
